@@ -1,4 +1,4 @@
-import PoxModel.Model.FlowTable
+import PoxModel.Model.MatchV
 import PoxModel.Model.BufPool
 /-! # Flow-table state machine — executable model of the FLOW_MOD / timeout paths of the software switch   (core Lean only)
 
@@ -35,8 +35,11 @@ model reports *which* stored frame is processed with *which* action list (`Out.r
 committed the model has to mirror both trees, so the three places they touch read a `Cfg` (constant in the state):
 `strictMutual` — `is_matched_by(strict=True)` tests "each match encompasses the other" instead of `==`;
 `maskUndefined` — `_rx_flow_mod` drops the undefined wildcard bits 22..31; `statsUnwire` — `_stats_flow/_stats_aggregate`
-normalise the request's match like a flow-mod's.  `Cfg.head` is `/repo` HEAD, `Cfg.repaired` the tree with all three applied; the
-harness probes the real code for which one it runs against.
+normalise the request's match like a flow-mod's.  The three repairs are committed in `/repo` (09c84e3, d2e474d, 0b8e7c4):
+`Cfg.repaired` is `/repo` HEAD with C03's repair D26 as well, `Cfg.head` a tree that reverts all of them; the harness probes the real
+code for which one it runs against.  `Cfg.mv` is C03's `Variant` of `ofp_match` (`Model/MatchV.lean`: D37 `from_packet` of ARP, D38
+`_unwire_wildcards`, D26 `is_wildcarded`): every use of `unpack(flow_mod=True)`, `from_packet` and
+`TableEntry.effective_priority` below is the variant's, so the sort key of the table is `cfg.mv.effectivePriority`.
 
 Outside the model: what actions do to a frame (C12), ports that do not exist or are configured down, actions that send a
 released packet to the controller again (C18's `useCtl`). -/
@@ -61,10 +64,15 @@ structure Cfg where
   strictMutual : Bool
   maskUndefined : Bool
   statsUnwire : Bool
+  /-- the variant of `ofp_match` (C03: D37, D38, D26) -/
+  mv : Variant
   deriving DecidableEq, Repr
 
-def Cfg.head : Cfg := { strictMutual := false, maskUndefined := false, statsUnwire := false }
-def Cfg.repaired : Cfg := { strictMutual := true, maskUndefined := true, statsUnwire := true }
+def Cfg.head : Cfg := { strictMutual := false, maskUndefined := false, statsUnwire := false, mv := Variant.head }
+def Cfg.repaired : Cfg := { strictMutual := true, maskUndefined := true, statsUnwire := true, mv := Variant.repaired }
+
+/-- `TableEntry.effective_priority` of the code variant: the key the table is sorted by -/
+def Cfg.key (cfg : Cfg) {α : Type} (e : Entry α) : Nat := cfg.mv.effectivePriority e
 
 def OFPP_NONE : Nat := 0xffff
 /-- bit numbers of `OFPFF_SEND_FLOW_REM = 1`, `OFPFF_CHECK_OVERLAP = 2`, `OFPFF_EMERG = 4` -/
@@ -212,7 +220,7 @@ def packPlain (m : OfMatch) : OfMatch :=
 /-- the match object a flow-mod's handlers see: `unpack(flow_mod=True)` of the transmitted record, then (repair C04-2)
     `ofp.match.wildcards &= OFPFW_ALL` -/
 def rxMatch (cfg : Cfg) (r : OfMatch) : OfMatch :=
-  if cfg.maskUndefined then { ofWire r with wildcards := (ofWire r).wildcards &&& FW_ALL } else ofWire r
+  if cfg.maskUndefined then { cfg.mv.ofWire r with wildcards := (cfg.mv.ofWire r).wildcards &&& FW_ALL } else cfg.mv.ofWire r
 
 /-- `TableEntry.from_flow_mod(flow_mod)` at time `now` -/
 def mkEntry (cfg : Cfg) (now : Nat) (fm : FlowModMsg) : FEntry :=
@@ -286,13 +294,13 @@ def overlapsWith (a b : OfMatch) : Bool :=
   Fld.all.all (fun f => viewOverlap (a.view f) (b.view f)) && nwOverlap a.srcView b.srcView && nwOverlap a.dstView b.dstView
 
 /-- `check_for_overlapping_entry(in_entry)` as written: scan in table order, stop at the first lower effective priority -/
-def overlapScan (prio : Nat) (m : OfMatch) : Table EData → Bool
+def overlapScan (key : Entry EData → Nat) (prio : Nat) (m : OfMatch) : Table EData → Bool
   | [] => false
   | e :: r =>
-    if e.effectivePriority < prio then false
-    else if e.effectivePriority > prio then overlapScan prio m r
+    if key e < prio then false
+    else if key e > prio then overlapScan key prio m r
     else if overlapsWith e.mtch m then true
-    else overlapScan prio m r
+    else overlapScan key prio m r
 
 def flowModFailed (s : State) (code : Nat) : State × List Out := (s, [.error OFPET_FLOW_MOD_FAILED code])
 
@@ -313,10 +321,10 @@ def addBase (s : State) (fm : FlowModMsg) : Table EData :=
 def flowModAdd (s : State) (fm : FlowModMsg) : State × List Out :=
   if fm.flags.testBit FF_EMERG then flowModFailed s (emergCode fm)
   else if fm.flags.testBit FF_CHECK_OVERLAP &&
-      overlapScan (mkEntry s.cfg s.now fm).effectivePriority (rxMatch s.cfg fm.mtch) s.table then
+      overlapScan s.cfg.key (s.cfg.key (mkEntry s.cfg s.now fm)) (rxMatch s.cfg fm.mtch) s.table then
     flowModFailed s OFPFMFC_OVERLAP
   else if (addBase s fm).length ≥ s.maxEntries then flowModFailed { s with table := addBase s fm } OFPFMFC_ALL_TABLES_FULL
-  else ({ s with table := addEntry (mkEntry s.cfg s.now fm) (addBase s fm) }, [])
+  else ({ s with table := addEntryBy s.cfg.key (mkEntry s.cfg s.now fm) (addBase s fm) }, [])
 
 /-- `_flow_mod_modify(strict)` -/
 def flowModModify (s : State) (fm : FlowModMsg) (strict : Bool) : State × List Out :=
@@ -381,7 +389,7 @@ def modifyFirst {α : Type} (p : α → Bool) (f : α → α) : List α → List
 
 /-- `rx_packet`: `entry_for_packet` then `touch_packet(len(packet))`; on a miss `_buffer_packet` and a packet-in -/
 def packetStep (s : State) (p : PHdr) (inPort len : Nat) : State × List Out :=
-  let acc := Entry.accepts (α := EData) (fromPacket p inPort)
+  let acc := Entry.accepts (α := EData) (s.cfg.mv.fromPacket p inPort)
   if s.table.any acc then ({ s with table := modifyFirst acc (touch len s.now) s.table }, [])
   else
     let a := alloc s.pool { hdr := p, len := len, inPort := inPort }
@@ -392,7 +400,7 @@ def portFilter (outPort : Nat) : Option Nat := if outPort = OFPP_NONE then none 
 /-- the match object of a stats request: `unpack(flow_mod=False)`; with repair C04-3 then
     `wildcards = _normalize_wildcards(_unwire_wildcards(wildcards))` -/
 def statsMatch (cfg : Cfg) (m : OfMatch) : OfMatch :=
-  if cfg.statsUnwire then ofWire (ofWirePlain m) else ofWirePlain m
+  if cfg.statsUnwire then cfg.mv.ofWire (ofWirePlain m) else ofWirePlain m
 
 /-- `table.matching_entries(match, strict=False, out_port)` for a stats request -/
 def statsEntries (s : State) (m : OfMatch) (outPort : Nat) : List FEntry :=
